@@ -519,6 +519,28 @@ func (c *Ctx) ruleStrEncap() {
 	if nWrap != 2 {
 		problems = append(problems, fmt.Sprintf("%d wraps in the loop, expected two (single character, pair)", nWrap))
 	}
+	// no value escapes the wrapping: a return that does not yield the value
+	// built by the loop yields the argument itself, and only when there is no pair at all
+	{
+		tt := c.eng.tt
+		noPairs := tt.mk(Term{K: "B", S: "==", A: c.intConst(0), B: tt.mk(Term{K: "LEN", A: tt.mk(Term{K: "P", N: 0})})})
+		bad := false
+		for _, rs := range fa.rets {
+			if len(rs.ret.Results) != 1 {
+				continue
+			}
+			rv := rs.ret.Results[0]
+			if phi, ok := rv.(*ssa.Phi); ok && phi.Block() == hdr {
+				continue // the value built so far, returned when the walk is over
+			}
+			if rv != ssa.Value(fn.Params[1]) || !c.provesFact(fa, rs.st, Fact{aTR, noPairs, true}, nil) {
+				bad = true
+			}
+		}
+		if bad {
+			problems = append(problems, "a return leaves the value unwrapped although pairs are configured (every leaf text, the empty string included, goes inside the pairs)")
+		}
+	}
 	if len(problems) == 0 {
 		rep.ok("R-STR", relName(fn), "outermost pair first", pos, "i runs len(enc)..1, pair enc[i-1] wraps the value built so far: the first pair ends up outermost")
 	} else {
@@ -578,4 +600,215 @@ func (c *Ctx) ruleStr() {
 	c.ruleStrUTF8()
 	c.ruleStrEncap()
 	c.ruleStrParen()
+	c.ruleStrCondValid()
+	c.ruleStrLeaf()
+	c.ruleStrJoin()
+	c.ruleStrLeadOnce()
+}
+
+// ruleStrCondValid: the unguarded Condition renderer condition.string is
+// called only where Condition.Valid of the very same instance has just
+// returned nil - wherever in the package the call sits - so an invalid
+// Condition contributes nothing to any rendering.
+func (c *Ctx) ruleStrCondValid() {
+	rep := c.rep
+	target := c.anchor("R-STR", "condition.string")
+	if target == nil {
+		return
+	}
+	sites := c.callSitesOf(target)
+	if len(sites) == 0 {
+		rep.bad("R-STR", "condition.string", "INVALID: call sites", c.p.pos(target.Pos()), "the Condition renderer has no call site")
+		return
+	}
+	ord := map[*ssa.Function]*ordinal{}
+	for _, in := range sites {
+		fn := in.Parent()
+		if ord[fn] == nil {
+			ord[fn] = newOrdinal()
+		}
+		construct := ord[fn].next("INVALID: call condition.string")
+		pos := c.p.instrPos(in)
+		cc := callCommon(in)
+		fa := c.eng.analyze(fn, nil)
+		valids := c.findCalls(fn, "Condition.Valid")
+		good := len(valids) > 0 && len(cc.Args) > 0 && fa.allHold(in, func(s *State) bool {
+			obj := handleBase(fa.term(s, cc.Args[0]))
+			for _, vc := range valids {
+				if handleBase(fa.term(s, vc.Call.Args[0])) != obj {
+					continue
+				}
+				if v, k := fa.nonNil(s, vc); k && !v {
+					return true
+				}
+			}
+			return false
+		})
+		if good {
+			rep.ok("R-STR", relName(fn), construct, pos, "reached only after Valid() of the same Condition returned nil")
+		} else {
+			rep.bad("R-STR", relName(fn), construct, pos, "a Condition is rendered without Valid() of that very Condition having returned nil (an invalid Condition would contribute text)")
+		}
+	}
+}
+
+// ruleStrLeaf: in defaultAssertionHandler the text of a leaf - the result of
+// the value's own String method or of the primitive stringer - is used for
+// nothing but the argument of the enclosing stack's encapv, whose result is
+// used for nothing but the argument of padValue; encapv hands its argument
+// and the receiver's own pair list to encapValue and returns that result.
+func (c *Ctx) ruleStrLeaf() {
+	rep := c.rep
+	fn := c.anchor("R-STR", "stack.defaultAssertionHandler")
+	encapv := c.anchor("R-STR", "stack.encapv")
+	if fn == nil || encapv == nil {
+		return
+	}
+	fa := c.eng.analyze(fn, nil)
+	isRecv := func(f *ssa.Function, a *FnAnalysis, v ssa.Value) bool {
+		// the receiver, a load of its spill slot, or the spill slot itself
+		if ld, ok := v.(*ssa.UnOp); ok && ld.Op == token.MUL {
+			v = ld.X
+		}
+		if al, ok := v.(*ssa.Alloc); ok {
+			var stored ssa.Value
+			n := 0
+			for _, r := range *al.Referrers() {
+				if st, ok := r.(*ssa.Store); ok && st.Addr == ssa.Value(al) {
+					n++
+					stored = st.Val
+				}
+			}
+			if n != 1 {
+				return false
+			}
+			v = stored
+		}
+		return len(f.Params) > 0 && v == ssa.Value(f.Params[0])
+	}
+	onlyUse := func(v ssa.Value) ssa.Instruction {
+		var out ssa.Instruction
+		n := 0
+		for _, r := range *v.Referrers() {
+			if _, dbg := r.(*ssa.DebugRef); dbg {
+				continue
+			}
+			n++
+			out = r
+		}
+		if n != 1 {
+			return nil
+		}
+		return out
+	}
+	nLeaf := 0
+	ord := newOrdinal()
+	for _, b := range fn.Blocks {
+		for _, in := range b.Instrs {
+			call, ok := in.(*ssa.Call)
+			if !ok {
+				continue
+			}
+			kind := ""
+			if cal := c.p.callee(&call.Call); cal != nil {
+				if relName(cal) == "primitiveStringer" {
+					kind = "primitive text"
+				}
+			} else if !call.Call.IsInvoke() {
+				if sig, ok := call.Call.Value.Type().Underlying().(*types.Signature); ok && sig.Params().Len() == 0 && sig.Results().Len() == 1 {
+					if bt, ok := sig.Results().At(0).Type().Underlying().(*types.Basic); ok && bt.Kind() == types.String {
+						kind = "text of the value's own String method"
+					}
+				}
+			}
+			if kind == "" {
+				continue
+			}
+			nLeaf++
+			construct := ord.next("LEAF: " + kind)
+			pos := c.p.instrPos(in)
+			msg := ""
+			u1 := onlyUse(call)
+			ec, _ := u1.(*ssa.Call)
+			switch {
+			case ec == nil || c.p.callee(&ec.Call) != encapv:
+				msg = "the leaf text is not handed (only) to encapv"
+			case len(ec.Call.Args) != 2 || ec.Call.Args[1] != ssa.Value(call) || !isRecv(fn, fa, ec.Call.Args[0]):
+				msg = "encapv is not applied by the enclosing stack to the leaf text"
+			default:
+				u2 := onlyUse(ec)
+				pc, _ := u2.(*ssa.Call)
+				if pc == nil || c.p.callee(&pc.Call) == nil || relName(c.p.callee(&pc.Call)) != "padValue" || len(pc.Call.Args) != 2 || pc.Call.Args[1] != ssa.Value(ec) {
+					msg = "the encapsulated text is not what is padded and returned"
+				} else if !c.flowsToReturn(fn, pc) {
+					msg = "the padded, encapsulated text does not reach the result"
+				}
+			}
+			if msg == "" {
+				rep.ok("R-STR", relName(fn), construct, pos, "leaf text -> r.encapv -> padValue -> result, nothing in between")
+			} else {
+				rep.bad("R-STR", relName(fn), construct, pos, msg)
+			}
+		}
+	}
+	if nLeaf < 2 {
+		rep.bad("R-STR", relName(fn), "LEAF: leaf arms", c.p.pos(fn.Pos()), fmt.Sprintf("expected the stringer arm and the primitive arm, found %d", nLeaf))
+	}
+	// encapv itself
+	{
+		ea := c.eng.analyze(encapv, nil)
+		msg := ""
+		calls := c.findCalls(encapv, "encapValue")
+		if len(calls) != 1 {
+			msg = "expected one call of encapValue"
+		} else {
+			ev := calls[0]
+			ge, _ := ev.Call.Args[0].(*ssa.Call)
+			switch {
+			case ev.Call.Args[1] != ssa.Value(encapv.Params[1]):
+				msg = "encapValue is not given the text to encapsulate"
+			case ge == nil || c.p.callee(&ge.Call) == nil || !strings.HasSuffix(relName(c.p.callee(&ge.Call)), "stack).getEncap") && relName(c.p.callee(&ge.Call)) != "stack.getEncap" || !isRecv(encapv, ea, ge.Call.Args[0]):
+				msg = "encapValue is not given the receiver's own pair list"
+			case !c.flowsToReturn(encapv, ev):
+				msg = "the encapsulated text is not returned"
+			}
+		}
+		if msg == "" {
+			rep.ok("R-STR", relName(encapv), "LEAF: own pairs, own text", c.p.pos(encapv.Pos()), "returns encapValue(r.getEncap(), v)")
+		} else {
+			rep.bad("R-STR", relName(encapv), "LEAF: own pairs, own text", c.p.pos(encapv.Pos()), msg)
+		}
+	}
+}
+
+// flowsToReturn: v reaches a return operand through phis only, and every use
+// of it (and of those phis) is such a phi or the return.
+func (c *Ctx) flowsToReturn(fn *ssa.Function, v ssa.Value) bool {
+	seen := map[ssa.Value]bool{}
+	reached := false
+	var walk func(x ssa.Value) bool
+	walk = func(x ssa.Value) bool {
+		if seen[x] {
+			return true
+		}
+		seen[x] = true
+		for _, r := range *x.Referrers() {
+			switch u := r.(type) {
+			case *ssa.DebugRef:
+			case *ssa.Return:
+				reached = true
+			case *ssa.Phi:
+				if !walk(u) {
+					return false
+				}
+			case *ssa.Store:
+				// named result spilled because of a defer: not used here
+				return false
+			default:
+				return false
+			}
+		}
+		return true
+	}
+	return walk(v) && reached
 }
